@@ -388,6 +388,12 @@ func (c *GroupCoordinator) OffsetCommit(ctx context.Context, req *kmsg.OffsetCom
 		topicResp.Partitions = make([]kmsg.OffsetCommitResponseTopicPartition, 0, len(topic.Partitions))
 		for _, part := range topic.Partitions {
 			code := groupErr
+			if code == protocol.NONE && !metadata.ValidTopicName(topic.Topic) {
+				// The topic name becomes part of the offset key in the store; a name
+				// that could never be a topic (path separators, ':') would alias
+				// another group's or topic's committed offset.
+				code = protocol.INVALID_TOPIC_EXCEPTION
+			}
 			if code == protocol.NONE {
 				meta := ""
 				if part.Metadata != nil {
@@ -416,10 +422,19 @@ func (c *GroupCoordinator) OffsetFetch(ctx context.Context, req *kmsg.OffsetFetc
 		topicResp.Topic = topic.Topic
 		topicResp.Partitions = make([]kmsg.OffsetFetchResponseTopicPartition, 0, len(topic.Partitions))
 		for _, partID := range topic.Partitions {
-			offset, metadataStr, err := c.store.FetchConsumerOffset(ctx, req.Group, topic.Topic, partID)
+			var offset int64
+			var metadataStr string
 			code := int16(protocol.NONE)
-			if err != nil {
-				code = protocol.UNKNOWN_SERVER_ERROR
+			if !metadata.ValidTopicName(topic.Topic) {
+				// Nothing can have been committed for it (see OffsetCommit), and
+				// looking it up could read another group's key.
+				offset, code = -1, protocol.INVALID_TOPIC_EXCEPTION
+			} else {
+				var err error
+				offset, metadataStr, err = c.store.FetchConsumerOffset(ctx, req.Group, topic.Topic, partID)
+				if err != nil {
+					code = protocol.UNKNOWN_SERVER_ERROR
+				}
 			}
 			partResp := kmsg.NewOffsetFetchResponseTopicPartition()
 			partResp.Partition = partID
